@@ -173,6 +173,22 @@ for i in range(ncomp):
                 fail("C16:formula-object-density", "%s gives %r (match %r); the same compound at %s gives %r (match %r)"
                      % (t2, a, ma, "the keyword's density" if dkw else "the object's own density", b, mb), call=t2)
 
+# ---------------------------------------------------------------- compounds of an element with b_c but no tabulated bulk density
+# (radium): with a density of their own they are compounds like any other
+stats["no_bulk_density"] = 0
+for comp in ("RaCl2@4.9", "Ra(OH[1])2@5.0", "BaRaH[1]2O2@4.5"):
+    stats["no_bulk_density"] += 1
+    a = attempt(lambda: nsf.D2O_sld(comp, volume_fraction=1.0, D2O_fraction=0.4))
+    m_ = attempt(lambda: nsf.D2O_match(comp))
+    fobj_ = formula(comp)
+    sub_, rs_ = substituted(dict(fobj_.atoms), fobj_.density, 0.4)
+    d_ = attempt(lambda: nsf.neutron_sld(formula(sub_), density=rs_))
+    t5 = "D2O_sld(%r, volume_fraction=1.0, D2O_fraction=0.4)" % comp
+    if any(isinstance(x, BaseException) for x in (a, m_, d_)) or d_ is None or d_[0] is None or \
+            not close(a[0], d_[0], abs(d_[0]) + 1) or not close(a[1], d_[1], max(abs(d_[1]), 1e-300)):
+        fail("C16:solute-vs-substituted:real", "%s = %r (D2O_match %r); the compound with 40%% of its labile hydrogen replaced by D at unchanged cell "
+             "volume has %r" % (t5, a, m_, d_), call=t5)
+
 # ---------------------------------------------------------------- the same through a private table
 # table=T reaches the parser: a compound given as a string is read with T's atoms, the labile hydrogen replaced is T's H[1].
 # With an unmodified private table the results are those of the public table.
